@@ -59,6 +59,7 @@ pub fn apply(lib: Library) -> Result<Library, Vec<Diagnostic>> {
     // Split based on the type so that we put all of the data type declarations
     // at the beginning.
     let mut postfix_types = Vec::new();
+    let mut postfix_type_names: Vec<Id> = Vec::new();
     // A name can be declared more than once (that is an error that a later stage
     // reports) so each name maps to all declarations having that name.
     let mut types_by_name: HashMap<Id, Vec<DataTypeDeclarationKind>> = HashMap::new();
@@ -81,6 +82,7 @@ pub fn apply(lib: Library) -> Result<Library, Vec<Diagnostic>> {
                     }
                     DataTypeDeclarationKind::Simple(decl) => {
                         // Can refer to other declarations, but does not have any declarations itself
+                        postfix_type_names.push(decl.type_name.name.clone());
                         postfix_types.push(LibraryElementKind::DataTypeDeclaration(
                             DataTypeDeclarationKind::Simple(decl),
                         ));
@@ -105,6 +107,7 @@ pub fn apply(lib: Library) -> Result<Library, Vec<Diagnostic>> {
                     }
                     DataTypeDeclarationKind::String(decl) => {
                         // Can refer to other declarations, but does not have any declarations itself
+                        postfix_type_names.push(decl.type_name.name.clone());
                         postfix_types.push(LibraryElementKind::DataTypeDeclaration(
                             DataTypeDeclarationKind::String(decl),
                         ));
@@ -145,8 +148,12 @@ pub fn apply(lib: Library) -> Result<Library, Vec<Diagnostic>> {
     }
 
     // The name of a function, function block, program or configuration can be defined only once
+    // and cannot also be the name of a data type
     for (name, elems) in elems_by_name.iter() {
-        if elems.len() > 1 {
+        if elems.len() > 1
+            || types_by_name.contains_key(name)
+            || postfix_type_names.contains(name)
+        {
             return Err(vec![Diagnostic::problem(
                 Problem::DefinitionNameDuplicated,
                 Label::span(name.span.clone(), "Duplicated definition"),
